@@ -25,10 +25,13 @@ type c11Call struct {
 }
 
 type c11Case struct {
-	Name     string
-	Calls    []c11Call
-	Flags    []string
-	Reserved int // 0: nothing; 1: the user defines and calls functions named like the first would-be helpers (prefix_); 2: named exactly like the bare plugin prefixes
+	Name  string
+	Calls []c11Call
+	Flags []string
+	// Alphabet 1: the first two argument types are same-named types of two imported packages that share
+	// their package name (scratch/a/x.T, scratch/b/x.T) instead of the local A and B
+	Alphabet int
+	Reserved int // 3 / 4: like 1, but the occupied names are function-typed variables / types used in conversions. 0: nothing; 1: the user defines and calls functions named like the first would-be helpers (prefix_); 2: named exactly like the bare plugin prefixes
 	Conflict bool
 	Dup      bool
 }
@@ -41,9 +44,27 @@ var c11NamesReserved = [][]string{{"deriveEqual", "deriveEqualX", "deriveEqualY"
 
 var c11NamesBare = [][]string{{"deriveEqualZ", "deriveEqualX", "deriveEqualY"}, {"deriveHashZ", "deriveHashX", "deriveHashY"}}
 
+var c11TypesImported = []string{"*ax.T", "*bx.T", "*C", "*ax.T"}
+
+func (cs *c11Case) types() []string {
+	if cs.Alphabet == 1 {
+		return c11TypesImported
+	}
+	return c11Types
+}
+
+func (cs *c11Case) tree() map[string]string {
+	files := map[string]string{"go.mod": pgen.GoMod, "p/a_calls.go": cs.source(), "p/z_user.go": cs.userSource()}
+	if cs.Alphabet == 1 {
+		files["a/x/x.go"] = "package x\n\ntype T struct{ X int }\n"
+		files["b/x/x.go"] = "package x\n\ntype T struct{ Y string }\n"
+	}
+	return files
+}
+
 func (cs *c11Case) names() [][]string {
 	switch cs.Reserved {
-	case 1:
+	case 1, 3, 4:
 		return c11NamesReserved
 	case 2:
 		return c11NamesBare
@@ -62,7 +83,11 @@ func (cs *c11Case) userSource() string {
 
 func (cs *c11Case) source() string {
 	var sb strings.Builder
-	sb.WriteString("package p\n\ntype A struct{ X int }\n\ntype B struct{ Y string }\n\ntype C struct{ Z []int }\n\n")
+	if cs.Alphabet == 1 {
+		sb.WriteString("package p\n\nimport (\n\tax \"scratch/a/x\"\n\tbx \"scratch/b/x\"\n)\n\nvar (\n\t_ ax.T\n\t_ bx.T\n)\n\ntype C struct{ Z []int }\n\n")
+	} else {
+		sb.WriteString("package p\n\ntype A struct{ X int }\n\ntype B struct{ Y string }\n\ntype C struct{ Z []int }\n\n")
+	}
 	cs.writeCalls(&sb)
 	return sb.String()
 }
@@ -71,6 +96,12 @@ func (cs *c11Case) writeUser(sb *strings.Builder) {
 	if cs.Reserved == 1 {
 		sb.WriteString("// hand-written functions occupying the first helper names goderive would mint\nfunc deriveEqual_(x int) int { return x }\n\nfunc deriveHash_(x int) int { return x }\n\nvar _ = deriveEqual_(1) + deriveHash_(2)\n\n")
 	}
+	if cs.Reserved == 3 {
+		sb.WriteString("// package-level function-typed variables occupying the first helper names goderive would mint\nvar deriveEqual_ = func(x int) int { return x }\n\nvar deriveHash_ = func(x int) int { return x }\n\nvar _ = deriveEqual_(1) + deriveHash_(2)\n\n")
+	}
+	if cs.Reserved == 4 {
+		sb.WriteString("// types, used in conversions, occupying the first helper names goderive would mint\ntype deriveEqual_ int\n\ntype deriveHash_ int\n\nvar _ = int(deriveEqual_(1)) + int(deriveHash_(2))\n\n")
+	}
 	if cs.Reserved == 2 {
 		sb.WriteString("// hand-written functions named exactly like the plugin prefixes\nfunc deriveEqual(x int) int { return x }\n\nfunc deriveHash(x int) int { return x }\n\nvar _ = deriveEqual(1) + deriveHash(2)\n\n")
 	}
@@ -78,7 +109,7 @@ func (cs *c11Case) writeUser(sb *strings.Builder) {
 
 func (cs *c11Case) writeCalls(sb *strings.Builder) {
 	for i, cl := range cs.Calls {
-		T := c11Types[cl.Type]
+		T := cs.types()[cl.Type]
 		n := cs.names()[cl.Plugin][cl.Name]
 		if cl.Plugin == 0 && cl.Type == 3 {
 			fmt.Fprintf(sb, "func use%d(a, b %s) bool { return %s(a)(b) }\n\n", i, T, n)
@@ -178,20 +209,26 @@ func c11Cases(c *Ctx) []c11Case {
 	var out []c11Case
 	for si, s := range seqs {
 		for fi, fl := range flagSets {
-			for res := 0; res < 3; res++ {
-				cs := c11Case{Calls: s, Flags: fl, Reserved: res}
-				cs.classify()
-				if c.Quick {
-					// seed-rotated slice: keep every clash-free singleton out, sample the rest
-					h := (si*7 + fi*3 + res + int(c.Seed)) % 13
-					if h != 0 && !(len(s) <= 2 && res == 0) {
+			for res := 0; res < 5; res++ {
+				for alpha := 0; alpha < 2; alpha++ {
+					cs := c11Case{Calls: s, Flags: fl, Reserved: res, Alphabet: alpha}
+					cs.classify()
+					if c.Quick {
+						// seed-rotated slice: keep every clash-free singleton out, sample the rest
+						mod := 13
+						if res > 2 || alpha > 0 {
+							mod = 39 // the added dimensions are sampled more thinly
+						}
+						h := (si*7 + fi*3 + res + alpha*5 + int(c.Seed)) % mod
+						if h != 0 && !(len(s) <= 2 && res == 0 && alpha == 0) && !(len(s) == 2 && res == 0 && (si+fi)%4 == 0) {
+							continue
+						}
+					} else if (res > 0 || alpha > 0) && (si+res+alpha)%3 != 0 {
 						continue
 					}
-				} else if res > 0 && si%3 != 0 {
-					continue
+					cs.Name = fmt.Sprintf("c11-%05d", len(out))
+					out = append(out, cs)
 				}
-				cs.Name = fmt.Sprintf("c11-%05d", len(out))
-				out = append(out, cs)
 			}
 		}
 	}
@@ -201,7 +238,7 @@ func c11Cases(c *Ctx) []c11Case {
 func (cs *c11Case) desc() string {
 	var parts []string
 	for _, cl := range cs.Calls {
-		parts = append(parts, fmt.Sprintf("%s(%s)", cs.names()[cl.Plugin][cl.Name], c11Types[cl.Type]))
+		parts = append(parts, fmt.Sprintf("%s(%s)", cs.names()[cl.Plugin][cl.Name], cs.types()[cl.Type]))
 	}
 	return fmt.Sprintf("flags=%v reserved=%v calls=[%s]", cs.Flags, cs.Reserved, strings.Join(parts, " "))
 }
@@ -259,7 +296,7 @@ func checkC11(c *Ctx) {
 	parallel(len(cases), 14, func(i int) {
 		cs := cases[i]
 		dir := c.Env.Dir(cs.Name)
-		grun.WriteTree(dir, map[string]string{"go.mod": pgen.GoMod, "p/a_calls.go": cs.source(), "p/z_user.go": cs.userSource()})
+		grun.WriteTree(dir, cs.tree())
 		g := c.Goderive(dir, append(append([]string{}, cs.Flags...), "./p"))
 		r := res{g: g, dir: dir}
 		if g.Exit == 0 && g.Crash == "" {
@@ -286,11 +323,11 @@ func checkC11(c *Ctx) {
 		o := outs[i]
 		c.Run.Eval(1)
 		want := cs.expect()
-		class := fmt.Sprintf("flags=%s|conflict=%v|dup=%v|reserved=%d", strings.Join(cs.Flags, ""), cs.Conflict, cs.Dup, cs.Reserved)
+		class := fmt.Sprintf("flags=%s|conflict=%v|dup=%v|reserved=%d|alphabet=%d", strings.Join(cs.Flags, ""), cs.Conflict, cs.Dup, cs.Reserved, cs.Alphabet)
 		viol := func(sym, detail string) {
 			c.Run.Violate(report.Violation{
 				Key: class + "|" + sym, Summary: cs.desc() + ": " + sym, Detail: detail,
-				Files:  map[string]string{"tree/go.mod": pgen.GoMod, "tree/p/a_calls.go": cs.source(), "tree/p/z_user.go": cs.userSource()},
+				Files:  mapWithPrefix(cs.tree(), "tree/"),
 				Replay: replayScript(strings.Join(append(append([]string{}, cs.Flags...), "./p"), " "), "go build ./p; echo build=$?\nexit 0"),
 			})
 		}
